@@ -25,8 +25,8 @@ from pathlib import Path
 import numpy as np
 
 VERIF = Path(__file__).resolve().parent.parent
-EVIDENCE_DIR = VERIF / 'evidence'
-REPLAY_DIR = VERIF / 'replays'
+EVIDENCE_DIR = Path(os.environ.get('PHYLIB_VERIF_EVIDENCE_DIR') or (VERIF / 'evidence'))
+REPLAY_DIR = Path(os.environ.get('PHYLIB_VERIF_REPLAY_DIR') or (VERIF / 'replays'))
 KNOWN_FINDINGS = VERIF / 'known_findings.json'
 
 RUN_ALARM_S = 30  # per-run wall-clock alarm; exceeding it is a harness error, never a pass
@@ -616,7 +616,7 @@ def repo_rev():
 
 
 def write_replay(prop, engine_name, plan, signature, detail, log_digest, seed, tier):
-    REPLAY_DIR.mkdir(exist_ok=True)
+    REPLAY_DIR.mkdir(exist_ok=True, parents=True)
     slug = ''.join(c if c.isalnum() else '-' for c in signature)[:70]
     path = REPLAY_DIR / ('%s-%s-%s.json' % (prop, slug, seed))
     doc = {'property': prop, 'engine': engine_name, 'tier': tier, 'plan': plan,
@@ -652,7 +652,7 @@ def fresh_process_replay(path):
 
 def write_evidence(prop, tier, seed, level, batch, engine, extra_coverage=None, violations=0,
                    known_hits=None, exhaustive=None):
-    EVIDENCE_DIR.mkdir(exist_ok=True)
+    EVIDENCE_DIR.mkdir(exist_ok=True, parents=True)
     wall = getattr(batch, 'wall_s', 0.0)
     cov = {
         'evaluations': batch.n,
